@@ -124,6 +124,14 @@ func runWitness(m witnessMeta, prop, repo string) witnessResult {
 		if len(fired) > 0 {
 			res.Detail = "documented miss is now detected: promote to expect=fire"
 		}
+	case "alarm":
+		// a documented limit in the other direction: an edit that keeps the property but that a rule cannot tell from a breaking
+		// one (the rule would need an invariant it does not establish). Recorded so that the limit stays visible; if the rules
+		// become precise enough the entry should be promoted to "silent".
+		res.Outcome = "ok"
+		if len(fired) == 0 {
+			res.Detail = "documented false alarm no longer fires: promote to expect=silent"
+		}
 	case "silent":
 		if len(fired) == 0 {
 			res.Outcome = "ok"
@@ -216,13 +224,15 @@ func thorough(p *Program, pr *Property, findings []Finding, res *RunResult, extr
 	extra["obligations_deep_bounds"] = len(deep.Obs)
 	// (d) liveness self-test
 	wr := runWitnesses(pr.ID, repo)
-	fired, silent, stale, misses := 0, 0, 0, 0
+	fired, silent, stale, misses, knownAlarms := 0, 0, 0, 0, 0
 	for _, w := range wr {
 		switch {
 		case w.Outcome == "ok" && w.Expect == "silent":
 			silent++
 		case w.Outcome == "ok" && w.Expect == "miss":
 			misses++
+		case w.Outcome == "ok" && w.Expect == "alarm":
+			knownAlarms++
 		case w.Outcome == "ok":
 			fired++
 		case w.Outcome == "stale":
@@ -238,6 +248,7 @@ func thorough(p *Program, pr *Property, findings []Finding, res *RunResult, extr
 	extra["refactors_silent"] = silent
 	extra["witnesses_stale"] = stale
 	extra["documented_misses"] = misses
+	extra["documented_false_alarms"] = knownAlarms
 	extra["witnesses"] = wr
 }
 
